@@ -181,6 +181,23 @@ Theorem C13_hash_respects_eq : forall e a, no_frozen a = true ->
 Proof. exact hash_respects_eq. Qed.
 Print Assumptions C13_hash_respects_eq.
 
+(* the ONLY collision of CPython's int hash among ints of magnitude < 2^61-1 is -1 / -2 *)
+Theorem C13_hash_int_collisions_small : forall x y, (Z.abs x < P61)%Z -> (Z.abs y < P61)%Z ->
+  hash_int x = hash_int y -> x = y \/ (x = (-1)%Z /\ y = (-2)%Z) \/ (x = (-2)%Z /\ y = (-1)%Z).
+Proof. exact hash_int_collisions_small. Qed.
+Print Assumptions C13_hash_int_collisions_small.
+
+(* functools.lru_cache(typed=False) around a function of hashable arguments (the _parse_* helpers of
+   contract.py, parse_equation_ellipses, get_symbol, preset_to_optimizer, can_hash_optimize): the dict is
+   keyed on the argument tuple itself, so it is transparent for every call sequence provided the
+   function does not distinguish ==-equal arguments *)
+Theorem C13_lru_cache_transparent : forall (R : Type) (f : pyval -> R) (calls : list pyval),
+  (forall a b, In a calls -> In b calls -> py_eqb a b = true -> f a = f b) ->
+  (forall a, In a calls -> py_hashable a = true) ->
+  cached_outputs (fun a => a) (fun _ => true) py_hashable false f calls = plain_outputs f calls.
+Proof. exact lru_cache_transparent. Qed.
+Print Assumptions C13_lru_cache_transparent.
+
 (* ---- canonicalisation ------------------------------------------------------------------------ *)
 (* with canonicalize=True an injective (w.r.t. ==) relabelling of the indices yields the very same
    normalised call -- same key, same arguments handed to the computation: sharing the entry is right *)
